@@ -1,0 +1,23 @@
+//! Verification hooks (cargo feature `verif`, off by default).
+//!
+//! This module only re-exports crate-private types so that out-of-tree
+//! verification harnesses can drive the real code unit by unit. The
+//! `verif_*` methods themselves live next to the types whose private
+//! fields they touch. Nothing here is part of the supported API.
+#![allow(missing_docs)]
+
+pub use crate::dictionary::character::{CharInfo, CharProperty};
+pub use crate::dictionary::connector::verif_reexports::{
+    RawConnectorBuilder, Scorer, ScorerBuilder, U31x8, INVALID_FEATURE_ID, SIMD_SIZE,
+};
+pub use crate::dictionary::connector::{
+    Connector, ConnectorCost, ConnectorWrapper, DualConnector, MatrixConnector, RawConnector,
+};
+pub use crate::dictionary::lexicon::{LexMatch, Lexicon, RawWordEntry, WordParam};
+pub use crate::dictionary::mapper::{ConnIdCounter, ConnIdMapper, ConnIdProbs};
+pub use crate::dictionary::unknown::{UnkEntry, UnkHandler, UnkWord};
+pub use crate::dictionary::{LexType, WordIdx};
+pub use crate::num::U31;
+pub use crate::sentence::Sentence;
+pub use crate::tokenizer::lattice::{Lattice, Node};
+pub use crate::utils::parse_csv_row;
